@@ -1004,6 +1004,12 @@ namespace sim
             res.counters["grid_world_unbuildable"]++;
             return;
           }
+        // a tool that stops with a message because the library refuses a node is within its rights
+        if (r.status == 0 && r.rc != 0 && r.err.find("error") != std::string::npos)
+          {
+            res.counters["grid_stopped_with_message"]++;
+            return;
+          }
         add(res, P + "/tool-failed", "grid", "gwb-grid failed on a grammatical grid file: " + (r.what.empty() ? r.err.substr(0, 300) : r.what.substr(0, 300)), op_index);
         return;
       }
@@ -1312,6 +1318,37 @@ namespace sim
     for (long c = 0; c < g.compositions; ++c)
       props.push_back(Prop{{2, static_cast<unsigned>(c), 0}});
     const Array &T = *find_array(v, "Temperature"), &vel = *find_array(v, "velocity"), &tag = *find_array(v, "Tag");
+    if (!v.exact)
+      {
+        // ASCII files carry six digits, too few to ask the library again at the printed position; but a node that
+        // was never filled in (temperature 0, tag 0) is recognisable whatever the rounding
+        long unfilled = 0, first = -1;
+        for (long i = 0; i < np && g.type != "sphere"; ++i)
+          if (T.v[static_cast<size_t>(i)] == 0.0)
+            {
+              const double px = v.points.v[static_cast<size_t>(3 * i)], py = v.points.v[static_cast<size_t>(3 * i + 1)], pz = v.points.v[static_cast<size_t>(3 * i + 2)];
+              try
+                {
+                  const std::vector<double> o = g.dim == 2 ? world->properties(std::array<double, 2> {{px, py}}, depth.v[static_cast<size_t>(i)], props)
+                                                : world->properties(std::array<double, 3> {{px, py, pz}}, depth.v[static_cast<size_t>(i)], props);
+                  if (o[0] > 1.0)
+                    {
+                      ++unfilled;
+                      if (first < 0)
+                        first = i;
+                    }
+                }
+              catch (std::exception &)
+                {
+                }
+            }
+        if (unfilled > 0)
+          {
+            add(res, P + "/node-value", "unfilled", base + ".vtu: " + std::to_string(unfilled) + " nodes have temperature 0 where the library returns a temperature (first: node "
+                + std::to_string(first) + ")", op_index);
+            return;
+          }
+      }
     if (v.exact)
       {
         for (long i = 0; i < np; ++i)
